@@ -1,18 +1,34 @@
-HOOK_COMMITS = ["1907b11"]
+HOOK_COMMITS = []  # filled by gen_manifest from git log (commits whose subject starts with "verif:")
 
-TECH = "contract-based deductive verification: SMT-discharged VCs from go/ssa against in-repo contracts (govc)"
+TECH = "contract-based deductive verification (govc): SMT-discharged verification conditions generated from go/ssa of the real functions against in-repo contracts (requires/ensures/modifies/loop invariants/variants/per-iteration step clauses)"
+
+COMMON_NOTE = ("Trusted base: go/ssa (x/tools v0.29.0) faithfulness, the govc encoding, SMT solvers (z3 4.8.12, z3 5.1.0, cvc5 1.0), library specifications listed in the evidence "
+               "(strings/strconv/fmt/sort/regexp closed form/errors). History assumptions: the definition was made through the public definers (TreeOK), Parse is called once per definition. "
+               "Per-iteration step clauses are composed into the whole-run statement by the (unmechanised) induction over the token sequence described in DESIGN.md section 3.2.")
 
 CLAIMED = {
  "C01": (TECH,
-   "Postconditions of the real Option.Save (string identity, strconv oracle for numbers, error => receiver unchanged, bool/increment rules) are proved for all inputs by SMT; obligations are generated from the current source on every run.",
-   "Assumes: strconv/strings/fmt library specs (uninterpreted oracles), go/ssa faithfulness, SMT solvers. Parser-level clauses (token intake, Called flag) are being brought under contract; see evidence assumptions.",
-   "DESIGN.md section 4 C01"),
+   "Proved for all inputs: isOption splits --name=value at the first '=' for every value text (incl. newlines, dashes, '='); Option.Save stores strings unchanged and numbers exactly as strconv yields them, errors leave the receiver untouched; the argument walk takes an attached value or exactly the next non-option token, marks the option called with its full key, and returns a parse error otherwise (pair.scalar.*, pair.optional.*, pair.flag.*, min.* step clauses of parseCLIArgs).",
+   COMMON_NOTE, "DESIGN.md section 4 C01"),
  "C02": (TECH,
-   "Postconditions of Option.Save for slice and map kinds (append in order, inclusive int range expansion with termination, key/value split at the first '=') proved for all inputs; loop invariants and variants discharged by SMT.",
-   "Assumes library specs for strings.SplitN/Contains, strconv oracles; contracts for multi-element Save calls cover len(a)==1 (what the parser issues).",
-   "DESIGN.md section 4 C02"),
- "C03": (TECH, "step clauses of the argument walk", "wip", "DESIGN.md section 4 C03"),
+   "Proved for all inputs: Save appends in order for slice kinds, expands a..b inclusively and terminates (loop variant), splits key=value at the first '='; AddChildOption admits slice/map options only with 1<=min<=max; the minimum loop takes exactly the missing tokens or fails, the greedy loop takes a token iff it exists, is not option-looking, is not '--' and is well-formed for the element type, one token per iteration, stored by exactly one Save (min.*, max.* step clauses, min.seq/max.seq order invariants for string slices).",
+   COMMON_NOTE + " Order invariants (min.seq/max.seq) are stated for []string; for []int/[]float64/map the per-token step clause (max.saved/min.saved) is proved instead.", "DESIGN.md section 4 C02"),
+ "C03": (TECH,
+   "Proved per iteration of the argument walk, for all argv/trees/modes: a positional is appended exactly once and verbatim (text.keep), the tail after '--' or after the require-order stop point is copied verbatim and in order (term.stops, text.stop, storeRemainingAsText), a command descent carries the collected text and unknown options to the command node (cmd.carry), an option token changes the text list by at most its own verbatim token, once (opt.once, pairs.once), and every other node's lists are untouched.",
+   COMMON_NOTE, "DESIGN.md section 4 C03"),
+ "C04": (TECH,
+   "Proved for all inputs: isOption never classifies '--' as an option; the iteration that meets '--' leaves the loop with nothing but the verbatim tail appended and no option, node or unknown list changed (term.stops); the greedy/optional value loop never takes '--' (max.take, pair.optional.novalue).",
+   COMMON_NOTE, "DESIGN.md section 4 C04"),
+ "C05": (TECH,
+   "Proved for all option tables: getAliasNameFromPartialEntry returns exactly the exact key, else exactly the keys with the typed prefix, without duplicates; in the walk a resolvable name marks exactly the record under the unique full key (UsedAlias = full key) and touches no other record or receiver (pair.resolved.*), an ambiguous name returns an error with nothing changed (pair.ambiguous).",
+   COMMON_NOTE, "DESIGN.md section 4 C05"),
+ "C08": (TECH,
+   "Proved per pair/iteration for all inputs: an unresolvable option name without require-order appends exactly one unknown-option record with that name (pair.unknown.rec); in Pass/Warn mode the token is then in the text list verbatim (pairs.kept, opt.kept); a command descent carries text and unknown records along (cmd.carry).",
+   COMMON_NOTE + " The policy step in Parse (error/warning) is covered once Parse is under contract; see evidence.", "DESIGN.md section 4 C08"),
+ "C09": (TECH,
+   "Proved for all inputs: with require-order the first positional that is not a command name, or the first unresolvable option, ends the loop with the verbatim tail starting at that token appended and no option touched in that iteration (text.stop, pair.unknown.stop).",
+   COMMON_NOTE, "DESIGN.md section 4 C09"),
 }
 
 _todo = "contracts for the functions this property depends on are not yet discharged in this revision; no claim is made"
-NOT_APPLICABLE = {p: _todo for p in ["C04","C05","C06","C07","C08","C09","C10","C11","C12","C13","C14","C15","C16","C17","C18","C19","C20"]}
+NOT_APPLICABLE = {p: _todo for p in ["C06","C07","C10","C11","C12","C13","C14","C15","C16","C17","C18","C19","C20"]}
